@@ -24,6 +24,8 @@ func main() {
 		os.Exit(sim.ReplayMain(os.Args[2:]))
 	case "worker":
 		os.Exit(sim.WorkerMain(os.Args[2:]))
+	case "child":
+		os.Exit(sim.ChildMain(os.Args[2:]))
 	case "crashworker":
 		os.Exit(sim.CrashWorkerMain(os.Args[2:]))
 	case "selftest":
